@@ -60,7 +60,7 @@ def draw_tm_scatterer(rng, center, wild=True, sizeclass=None):
     elif sizeclass == 'edge':
         a = rfloat(rng, 0.9, 2.2, 4)
     else:
-        a = rfloat(rng, 7.5, 12.0, 3)
+        a = rfloat(rng, 8.4, 12.0, 3)   # beyond the work arrays: fails fast
     n = draw_index(rng, 0.3)
     if kind == 'sphere':
         return {'op': 'sphere', 'args': {'n': n, 'r': a, 'center': center}}
@@ -158,6 +158,26 @@ class C10:
                                 'th': tha, 'optics': None,
                                 'scaling': 1.0 if kind == 'holo' else None},
                        tags={'k': 'tm/' + sc['op'], 'ref': True, 'tm': True})
+                # the same particle again (other detector / quantity / an
+                # equivalent orientation): the solver keeps its state in
+                # COMMON blocks, also after a failed attempt
+                for _rep in range(rng.choice([0, 0, 1, 1, 2])):
+                    h2 = h
+                    if sc['op'] != 'sphere' and rng.random() < 0.5:
+                        a2 = dict(sc['args'])
+                        r0 = a2['rotation']
+                        a2['rotation'] = [rfloat(rng, 0, 6, 3), r0[1], r0[2]]
+                        h2 = b.emit(sc['op'], a2, store='sc')
+                    kind2 = rng.choice(['holo', 'field', 'scat_matrix'])
+                    if th == 'lens' and kind2 == 'scat_matrix':
+                        kind2 = 'field'
+                    b.emit('calc', {
+                        'kind': kind2,
+                        'det': det(di if th == 'lens' else rng.randrange(2)),
+                        'sc': h2, 'th': tha, 'optics': None,
+                        'scaling': 1.0 if kind2 == 'holo' else None},
+                        tags={'k': 'tm-again/' + sc['op'], 'ref': True,
+                              'tm': True})
             elif c < 0.62:
                 # other solvers interleaved
                 sk = rng.choice(['sphere', 'spheres', 'layered'])
@@ -217,8 +237,10 @@ class C10:
                             'args': {'n': n, 'r': a, 'center': cen}})
         else:
             a = rfloat(rng, 0.05, 0.8, 4)
-            base = draw_tm_scatterer(rng, cen, wild=False,
-                                     sizeclass=rng.choice(['small', 'mid']))
+            base = draw_tm_scatterer(
+                rng, cen, wild=False,
+                sizeclass=rng.choice(['small', 'mid', 'mid', 'edge',
+                                      'huge']))
             while base['op'] == 'sphere':
                 base = draw_tm_scatterer(rng, cen, wild=False,
                                          sizeclass='mid')
